@@ -201,7 +201,7 @@ func checkC02(tier string) {
 	r.Rule = "modules of 4 generated routes (G-prog core fragment: int/float/str/bool/array/object expressions, arithmetic with coercion, comparisons, total && ||, field/index on variables, shared builtins, if/else, bounded while, for / indexed for, switch, break/continue, nested return, status return, guards, ill-typed operands, division by zero, out-of-range indices) served in compiled and interpreted mode through the CLI wiring; every request's (status, decoded body, connection fate) compared; distinct = route source hash; non-trivial = >= 12 AST nodes. Quarantined constructs (one recorded finding each) are replayed by directed probes only"
 	r.Assume("5xx responses are compared as 'generic 5xx' only; log output, timing and header order are ignored; each module is served by a fresh router pair")
 	explore := os.Getenv("VERIF_C02_EXPLORE") != ""
-	nmod := r.Pick(1500, 40000)
+	nmod := r.Pick(6000, 60000)
 	type meta struct {
 		cases []c02Case
 		src   string
